@@ -560,6 +560,7 @@ Section Pair.
     eapply hoare_bind with (Q1 := fun sh s => ((JD 0 s /\ PV v0 vi1 s) /\ DF (delegations s0) s) /\ sh <= d_shares d); [apply hoare_validate|].
     intros sh. match goal with |- hoare _ (if ?b then _ else _) _ _ => destruct b end; [apply hoare_panic; auto|].
     match goal with |- hoare _ (if ?b then _ else _) _ _ => destruct b end; [apply hoare_fail; auto|].
+    match goal with |- hoare _ (if ?b then _ else _) _ _ => destruct b end; [apply hoare_fail; auto|].
     eapply hoare_bind; [apply hoare_opt_or_panic|].
     intros vsr; cbv beta. set (a' := set_a_vshares (a_vshares a - vsr) (set_a_tokens (a_tokens a - amt) a)).
     apply (hoare_pre _ _ (fun s => ((JD 0 s /\ PV v0 vi1 s) /\ DF (delegations s0) s) /\ sh <= d_shares d)); [intros s [H _]; exact H|].
